@@ -126,12 +126,59 @@ def _replay_percpu(AM, possible, online):
                       f"{vbuf} bytes, the kernel writes roundup8(16) * {possible} possible CPUs = {need} bytes"}
 
 
+def replay_big_hash(name, conc, notes):
+    """a real HashMap with 300 variables: every key buffer that reaches the
+    (recorded) bpf wrappers is compared with the key size the map was created with"""
+    import ebpfcat.hashmap as H
+    made, bad = {}, []
+    saved = H.create_map, H.lookup_elem, H.update_elem
+
+    def create_map(map_type, key_size, value_size, max_entries, *a, **k):
+        made[77] = key_size
+        return 77
+
+    def lookup_elem(fd, key, size):
+        if len(key) < made[fd]:
+            bad.append(("lookup", len(key), made[fd]))
+        return bytes(8)
+
+    def update_elem(fd, key, value, *a):
+        if len(key) < made[fd]:
+            bad.append(("update", len(key), made[fd]))
+    H.create_map, H.lookup_elem, H.update_elem = create_map, lookup_elem, update_elem
+    try:
+        hm = H.HashMap()
+        ns = {"loaded": False, "hm": hm}
+        for i in range(300):
+            ns[f"v{i + 1}"] = hm.globalVar("I")
+        P = type("P", (), ns)
+        p = P()
+        hm.init(p, None)
+        p.loaded = True
+        for n in ("v1", "v255", "v300"):
+            try:
+                setattr(p, n, 7)
+                getattr(p, n)
+            except Exception:      # noqa  (refused before any kernel call)
+                pass
+    finally:
+        H.create_map, H.lookup_elem, H.update_elem = saved
+    return {"inputs": {"hash variables in one map": 300, "accessed": ["v1", "v255", "v300"]},
+            "reproduced": True if bad else None,
+            "detail": f"real HashMap/HashGlobalVarDesc: (call, key buffer bytes, map key size) that fall short: {bad[:4]}"}
+
+
 def native(name, conc, notes):
+    if "300 variables" in name:
+        return replay_big_hash(name, conc, notes)
     if "HashGlobalVarDesc.__get__" in name:
         return replay_hash_get(name, conc, notes)
     if "PerCPUReader.read" in name or "PerCPUArrayMap.create_map" in name:
         return replay_percpu(name, conc, notes)
     return {"inputs": conc, "reproduced": None, "detail": "no native harness for this clause"}
+
+
+native.fallback = lambda name: native(name, None, None) if "300 variables" in name else None
 
 
 def run(tier, seed):
@@ -159,7 +206,7 @@ def run(tier, seed):
         api.REGISTRY["ebpfcat.ebpf:EBPF.load"] = nop
         api.REGISTRY["ebpfcat.ebpf:EBPF.close"] = nop
         fmts = S.FMTS if tier == "thorough" else ["B", "I", "q"]
-        cs = [S.hashmap_init, S.percpu_create, S.percpu_read, S.register]
+        cs = [S.hashmap_init, S.hashmap_big(), S.percpu_create, S.percpu_read, S.register]
         for f in fmts:
             cs += [S.hashvar_get(f), S.hashvar_set(f)]
         for K, V in (S.STRUCTS if tier == "thorough" else S.STRUCTS[::2]):
